@@ -228,6 +228,60 @@ fn counters() -> Option<String> {
     None
 }
 
+
+/// C03/C18: without t_eval every accepted step is reported, so the last sample of a successful run is xend and
+/// the number of reported intervals is naccpt -- also when the steps are shorter than 1e-12
+fn short_steps_reported() -> Option<String> {
+    for span in [1e-11, 1e-12, -5e-13] {
+        for m in [Method::RK4, Method::RK23, Method::DOPRI5, Method::DOP853, Method::BDF] {
+            let f = Lin::new();
+            let s = match solve_ivp(&f, 0.0, span, &[1.0, 2.0], Options::builder().method(m.clone()).build()) { Ok(s) => s, Err(_) => continue };
+            if s.status == Status::Success && (s.t.last().copied() != Some(span) || s.t.len() != s.naccpt + 1) {
+                return Some(format!("{:?} on [0, {:e}]: status Success, naccpt={} but {} samples are reported and the last one is t={:?}", m, span, s.naccpt, s.t.len(), s.t.last()));
+            }
+        }
+    }
+    None
+}
+
+/// C03/C11: a first_step of either sign, or larger than the interval, never puts a sample outside [x0, xend],
+/// keeps the samples monotone and still reports xend
+fn first_step_sign_and_overshoot() -> Option<String> {
+    for (x0, xend, fs) in [(0.0, 1.0, -0.1), (0.0, -1.0, -0.1), (0.0, 1.0, 2.0), (0.0, 1e-4, 1.0), (0.0, -1.0, 3.0)] {
+        for m in [Method::RK23, Method::DOPRI5, Method::DOP853, Method::RADAU, Method::BDF] {
+            let f = Lin::new();
+            let mut o = Options::builder().method(m.clone()).build();
+            o.first_step = Some(fs);
+            let s = match solve_ivp(&f, x0, xend, &[1.0, 2.0], o) { Ok(s) => s, Err(_) => continue };
+            let (lo, hi) = if x0 < xend { (x0, xend) } else { (xend, x0) };
+            let outside = s.t.iter().any(|t| *t < lo || *t > hi);
+            let monotone = s.t.windows(2).all(|w| if xend > x0 { w[1] > w[0] } else { w[1] < w[0] });
+            if outside || !monotone || (s.status == Status::Success && s.t.last().copied() != Some(xend)) {
+                let head: Vec<f64> = s.t.iter().take(4).copied().collect();
+                return Some(format!("{:?} on [{}, {}] with first_step={}: status {:?}, t starts {:?}, ends {:?} ({} samples)", m, x0, xend, fs, s.status, head, s.t.last(), s.t.len()));
+            }
+        }
+    }
+    None
+}
+
+
+/// C03: status Success exactly when the whole interval was covered -- also when the very first step reaches xend
+fn first_step_reaches_xend() -> Option<String> {
+    for (x0, xend, fs) in [(0.0, 1e-3, 1e-3), (0.0, -1e-3, 1e-3), (0.0, 1e-4, 1.0), (1.0, 1.0 + 1e-7, 1.0)] {
+        for m in [Method::RK23, Method::DOPRI5, Method::DOP853, Method::RADAU, Method::BDF] {
+            let f = Lin::new();
+            let mut o = Options::builder().method(m.clone()).rtol(1e-3).atol(1e-6).build();
+            o.first_step = Some(fs);
+            let s = match solve_ivp(&f, x0, xend, &[1.0, 2.0], o) { Ok(s) => s, Err(_) => continue };
+            if s.t.last().copied() == Some(xend) && s.status != Status::Success {
+                return Some(format!("{:?} on [{}, {}] with first_step={}: the last sample is xend (naccpt={}) but the status is {:?}", m, x0, xend, fs, s.naccpt, s.status));
+            }
+        }
+    }
+    None
+}
+
 fn main() {
     let which = std::env::args().nth(1).unwrap_or_default();
     let r = match which.as_str() {
@@ -239,6 +293,9 @@ fn main() {
         "matrix_dense_model" => matrix_dense_model(),
         "rk4_overshoot" => rk4_overshoot(),
         "counters" => counters(),
+        "first_step_reaches_xend" => first_step_reaches_xend(),
+        "short_steps_reported" => short_steps_reported(),
+        "first_step_sign_and_overshoot" => first_step_sign_and_overshoot(),
         "radau_interpolant_interval" => radau_interpolant_interval(),
         "event_interpolant_right_end" => event_interpolant_right_end(),
         _ => { println!("unknown scenario {}", which); std::process::exit(2); }
